@@ -29,6 +29,19 @@ CHECKS = {
                      "(hypothesis of the zero-one principle, which extends the result to every input and strict weak order); additionally all n! permutations "
                      "(n<=9 quick / 11 thorough) and all 3-key inputs with tags under less and greater. Exhaustive, ASan on.",
                 note="zero-one principle (Knuth 5.3.4 Thm Z); obliviousness checked for the int instantiation of the template"),
+    "C19": dict(engine="venum", technique=E3, design="4/C19",
+                text="All byte strings / string vectors up to a length bound over alphabets containing separators, quotes, escapes, whitespace, NUL and 0xFF: "
+                     "base64 (line breaks 0/4/8/12/76, strict and lax) and hexdump round trips and RFC 4648 / hex reference encodings; join/split round trip under "
+                     "the property's side condition; split_quoted(join_quoted(v)) == v for every vector of <=3 strings of length <=3 (default and custom triple); "
+                     "split with every limit/min_fields, replace_first/all, trim family, starts/ends_with(+icase), contains, to_lower/upper, compare/equal/less_icase, "
+                     "erase_all, pad, levenshtein against naive references written from the doc comments. ~5M (quick) / ~24M (thorough) distinct inputs, exhaustive.",
+                note="references written from the documented definitions; ambiguities resolved as tests/string_test.cpp pins them (listed in the harness header)"),
+    "C20": dict(engine="venum", technique=E3, design="4/C20",
+                text="Every value of the 8/16-bit instantiations and (thorough) all 2^32 values of the 32-bit overloads of clz/ctz/ffs/popcount/integer_log2/"
+                     "is_power_of_two/round_up,down_to_power_of_two/bswap/rol/ror/sgn, structured 64-bit values (all 1-,2-(,3-)bit patterns, 2^k+-1, extremes), "
+                     "two-argument grids for div_ceil/round_up/abs_diff, all against naive/128-bit references, intrinsic overloads vs generic templates; Aggregate: "
+                     "every pair of operands built from value lists of length 0..3 combined with + and += in both orders vs one Aggregate fed all values.",
+                note="reference in __int128 / naive bit loops; results compared only where representable and the argument is in the documented domain"),
 }
 
 NA = {}
